@@ -217,6 +217,18 @@ func c18Snapshots(k int) map[string]*config.ClusterResources {
 		res["rej-localpref-equal-length-only-"+fam] = &lpf
 	}
 
+	// two advertisements with different local preferences for the same routes, one for every peer (no peer list) and one
+	// naming a single peer: they collide on that peer whichever of the two is looked at first
+	{
+		lpp := c18Apply(rich, nil)
+		for i := range lpp.BGPAdvs {
+			lpp.BGPAdvs[i].Spec = metallbv1beta1.BGPAdvertisementSpec{AggregationLength: ptr.To(int32(30 - i)), AggregationLengthV6: ptr.To(int32(120 - i)), LocalPref: 100}
+		}
+		lpp.BGPAdvs[0].Spec = metallbv1beta1.BGPAdvertisementSpec{AggregationLength: ptr.To(int32(32)), AggregationLengthV6: ptr.To(int32(128)), LocalPref: 100}
+		lpp.BGPAdvs[k-1].Spec = metallbv1beta1.BGPAdvertisementSpec{AggregationLength: ptr.To(int32(32)), AggregationLengthV6: ptr.To(int32(128)), LocalPref: 200, Peers: []string{"peer-" + names[0]}}
+		res["rej-localpref-conflict-all-peers-against-one-peer"] = &lpp
+	}
+
 	// an aggregation length that is too short for one family only, on dual-stack pools: the per-family loop over
 	// the pool's CIDRs runs in map order, the verdict must not depend on it
 	for _, fam := range []string{"v4", "v6"} {
